@@ -21,3 +21,17 @@ func Dbg_Bind() {
 	verif.Reach("ran")
 	_ = rr
 }
+
+func Dbg_Bytes1() {
+	payload := verif.Bytes("payload", 2)
+	src := []byte("print ")
+	src = append(src, payload...)
+	c06Run(src, false)
+}
+
+func Dbg_Bytes8() {
+	payload := verif.Bytes("payload", 2)
+	src := []byte("print 1e9")
+	src = append(src, payload...)
+	c06Run(src, false)
+}
